@@ -88,22 +88,24 @@ def draw_spec(rng, tier="quick"):
                 t = t[:-1] + word[0]
             if scar and i == 1:
                 t = word[-1] + t[1:]
-            text = ba.build_module(e, ovs[i], t, ovs[i + 1], rng, backbone=rng.randint(4, 14))
+            text = ba.build_module(e, ovs[i], t, ovs[i + 1], rng, backbone=rng.choice([0, 0, 1, 2] + list(range(3, 15))))   # (0: the structure fills the plasmid)
             if text is not None and text.upper().count((ovs[i] + t).upper()) == 1:
                 break
         else:
             return None
         st = text.index(ovs[i] + t)
         plasmids.append(dict(role="module", text=text, inside=(st, k + len(t)), frag=ovs[i] + t))
-    vtext, vfrag = ba.build_vector(e, ovs[chain], ovs[0], rng, placeholder=rng.randint(3, 9), backbone=rng.randint(5, 14))
+    vtext, vfrag = ba.build_vector(e, ovs[chain], ovs[0], rng, placeholder=rng.choice([0, 1, 2] + list(range(3, 10))), backbone=rng.choice([0, 1] + list(range(2, 15))))
     if vtext is None:
         return None
     vst = (vtext + vtext).index(vfrag) % len(vtext)
     plasmids.append(dict(role="vector", text=vtext, inside=(vst, len(vfrag)), frag=vfrag))
     unused = None
     if rng.random() < 0.3:
-        if chain == 1 and rng.random() < 0.5:
-            utext = gen.rc(plasmids[0]["text"])        # the same fragment supplied once more, from the other strand
+        if chain == 1 and rng.random() < 0.5 and gen.rc(ovs[chain]) not in ovs[:chain] and gen.rc(ovs[chain]) != ovs[chain]:
+            # the same fragment supplied once more, from the other strand (its start overhang is the reverse complement of
+            # the chain's last overhang: not when that is a module's start already, or a palindrome -- a legitimate DuplicateModules)
+            utext = gen.rc(plasmids[0]["text"])
         else:
             utext = ba.build_module(e, ovs[chain + 1], ba.clean(rng, 5, e), ovs[chain + 1] if chain == 1 else ovs[1], rng)
         if utext is not None:
